@@ -776,3 +776,251 @@ def foreign_writers(model: Model, protected: Set[str], family_classes: List[str]
                 continue      # a same-named attribute of an unrelated class
             out.append((fn, tgt.attr, n.lineno, norm(recv)))
     return out
+
+
+def dsf_sweep(overlay, family: Family, tag: str):
+    """Auto-generated deletions of every invalidation / refresh statement of a class family (thorough tier)."""
+    import re
+    from .model import Model
+    from .selftest import sweep_lines
+    M = Model(overlay)
+    derived = set(family.specs)
+    plain = sorted({d for d in derived if '.' not in d}, key=len, reverse=True)
+    subs = sorted({d for d in derived if '.' in d})
+    classes = []
+    for cn in family.classes:
+        c = M.classes.get(cn)
+        if c is None:
+            continue
+        for k in M.mro(c):
+            if k not in classes:
+                classes.append(k)
+    # helper methods that (re)establish derived state
+    helpers = set()
+    for k in classes:
+        for f in k.methods.values():
+            if f.name.startswith('_') and not f.name.startswith('__') and f.self_name:
+                for n in ast.walk(f.node):
+                    if isinstance(n, ast.Attribute) and isinstance(n.ctx, ast.Store) and is_self_attr(n, f.self_name) in derived:
+                        helpers.add(f.name)
+    pats = []
+    if plain:
+        pats.append(r'^self\.(%s)(\[[^\]]*\])? = ' % '|'.join(re.escape(d) for d in plain))
+    if subs:
+        pats.append(r'^self\.(%s) = ' % '|'.join(re.escape(d) for d in subs))
+    if helpers:
+        pats.append(r'^self\.(%s)\(\)$' % '|'.join(re.escape(h) for h in sorted(helpers)))
+    rx = re.compile('|'.join(pats)) if pats else None
+    out = []
+    if rx is None:
+        return out
+    for k in classes:
+        for d, suffix in ((k.methods, ''), (k.setters, '@setter'), (k.getters, '@getter')):
+            for f in d.values():
+                if f.name == '__init__' and False:
+                    continue
+                out.extend(sweep_lines(overlay, f.path, '%s.%s%s' % (k.name, f.name, suffix), lambda t: bool(rx.match(t)), tag))
+    return out
+
+
+# ---------------------------------------------------------------------------------------------
+# auto-DSF: every lazily filled memo of the anchored classes, discovered from the code (no table)
+# ---------------------------------------------------------------------------------------------
+def _validity_memos(fn: FuncInfo) -> Dict[str, Set[str]]:
+    """Memos of the idiom  `if self._m is not None and <validity test>: return self._m ... self._m = E`.
+    Returns attr -> attributes read by the validity test (dependencies the programmer validates lazily)."""
+    out: Dict[str, Set[str]] = {}
+    sn = fn.self_name or 'self'
+    stored = {is_self_attr(n, sn) for n in walk_no_nested(fn.node) if isinstance(n, ast.Attribute) and isinstance(n.ctx, ast.Store)}
+    for n in walk_no_nested(fn.node):
+        if not isinstance(n, ast.If) or not n.body or not isinstance(n.body[-1], ast.Return) or n.body[-1].value is None:
+            continue
+        a = is_self_attr(n.body[-1].value, sn)
+        if a is None or a not in stored:
+            continue
+        conj = n.test.values if isinstance(n.test, ast.BoolOp) and isinstance(n.test.op, ast.And) else [n.test]
+        has_not_none = any(isinstance(c, ast.Compare) and len(c.ops) == 1 and isinstance(c.ops[0], ast.IsNot)
+                           and is_self_attr(c.left, sn) == a and isinstance(c.comparators[0], ast.Constant)
+                           and c.comparators[0].value is None for c in conj)
+        if not has_not_none:
+            continue
+        covered = {is_self_attr(x, sn) for c in conj for x in ast.walk(c)} - {None}
+        out[a] = covered
+    return out
+
+
+def discover_memos_auto(model: Model, cls: ClassInfo) -> Dict[str, Dict[str, Any]]:
+    """attr -> {'fillers': [FuncInfo], 'covered': set} for lazily filled memos of cls (own and inherited)."""
+    out: Dict[str, Dict[str, Any]] = {}
+    for k in model.mro(cls):
+        for d in (k.getters, k.methods, k.setters):
+            for f in d.values():
+                if f.self_name is None:
+                    continue
+                for a in lazy_memos_of(f):
+                    out.setdefault(a, {'fillers': [], 'covered': set()})['fillers'].append(f)
+                for a, cov in _validity_memos(f).items():
+                    e = out.setdefault(a, {'fillers': [], 'covered': set()})
+                    e['fillers'].append(f)
+                    e['covered'] |= cov
+    return out
+
+
+class AutoDSF(DSF):
+    """DSF over auto-discovered memos: dependencies are what the fill expressions read; calls of mutating
+    methods on a sub-object held in a dependency attribute count as writes of that dependency."""
+
+    def __init__(self, model: Model, concrete: ClassInfo, family: Family, memos: Dict[str, Dict[str, Any]]):
+        self.memos = memos
+        super().__init__(model, concrete, family)
+        self._subobj_cls: Dict[str, Optional[ClassInfo]] = {}
+
+    def _compute_lazy_deps(self) -> None:
+        for a, info in self.memos.items():
+            deps: Set[str] = set()
+            for f in info['fillers']:
+                sn = f.self_name or 'self'
+                saved = self.fn_stack
+                self.fn_stack = saved + [f]
+                saved_locals = self.locals
+                self.locals = {}
+                # locals first (flow-insensitive), then the fill expressions
+                for n in walk_no_nested(f.node):
+                    if isinstance(n, ast.Assign) and len(n.targets) == 1 and isinstance(n.targets[0], ast.Name):
+                        self.locals[n.targets[0].id] = frozenset(self.expr_reads(n.value))
+                for n in walk_no_nested(f.node):
+                    if isinstance(n, (ast.Assign, ast.AnnAssign)) and getattr(n, 'value', None) is not None:
+                        tg = n.targets if isinstance(n, ast.Assign) else [n.target]
+                        if any(is_self_attr(t, sn) == a for t in tg) and not (isinstance(n.value, ast.Constant) and n.value.value is None):
+                            deps |= self.expr_reads(n.value)
+                self.locals = saved_locals
+                self.fn_stack = saved
+            deps -= {a}
+            deps -= info['covered']
+            self.derived[a] = deps
+
+    def memo_fills(self, fn: FuncInfo) -> Set[str]:
+        return {a for a, info in self.memos.items() if any(f.node is fn.node for f in info['fillers'])}
+
+    def run_fn(self, fn: FuncInfo, st: State) -> State:
+        # any filler (getter or plain method) may fill its memo without that counting as a source write
+        self._extra_fill = getattr(self, '_extra_fill', [])
+        self._extra_fill.append(self.memo_fills(fn))
+        try:
+            return super().run_fn(fn, st)
+        finally:
+            self._extra_fill.pop()
+
+    def in_fill(self, d: str) -> bool:
+        return super().in_fill(d) or any(d in s for s in getattr(self, '_extra_fill', []))
+
+    def subobj_class(self, attr: str) -> Optional[ClassInfo]:
+        if attr in self._subobj_cls:
+            return self._subobj_cls[attr]
+        found = None
+        for k in self.M.mro(self.C):
+            for f in list(k.methods.values()) + list(k.setters.values()):
+                sn = f.self_name
+                if sn is None:
+                    continue
+                for n in ast.walk(f.node):
+                    if isinstance(n, ast.Assign) and isinstance(n.value, ast.Call) and any(is_self_attr(t, sn) == attr for t in n.targets):
+                        c = self.M.resolve_class_expr(f.module, n.value.func)
+                        if c is not None:
+                            found = c
+        self._subobj_cls[attr] = found
+        return found
+
+    def call(self, c: ast.Call, st: State) -> Optional[State]:
+        f = c.func
+        fn = self.fn_stack[-1]
+        sn = fn.self_name or 'self'
+        if isinstance(f, ast.Attribute) and isinstance(f.value, ast.Attribute):
+            holder = is_self_attr(f.value, sn)
+            if holder is not None and any(holder in self.tdeps[d] for d in self.derived):
+                k = self.subobj_class(holder)
+                if k is not None:
+                    m = self.M.lookup_method(k, f.attr)
+                    if m is not None:
+                        from .effects import _self_mutating
+                        if _self_mutating(self.M, m):
+                            return self.write_dep(st, holder, c)
+        return super().call(c, st)
+
+
+def auto_memo_check(ctx, rule: str, module_paths: List[str], skip_classes: Optional[Set[str]] = None) -> int:
+    """Obligations: no auto-discovered lazy memo of any class defined in module_paths is DIRTY at a normal exit of a
+    public entry point.  Classes without memos contribute one trivial instance each (so the rule is never vacuous)."""
+    M: Model = ctx.model
+    skip = skip_classes or set()
+    n_memos = 0
+    for path in module_paths:
+        mod = M.module(path)
+        for cname, cls in sorted(mod.classes.items()):
+            if cname in skip:
+                continue
+            memos = discover_memos_auto(M, cls)
+            # memos inherited from classes handled elsewhere are skipped too
+            memos = {a: i for a, i in memos.items() if not any(f.cls is not None and f.cls.name in skip for f in i['fillers'])}
+            ctx.instance(rule, '%s:memos=%d' % (cname, len(memos)))
+            if not memos:
+                ctx.obligation(rule, cname, True, None, nontrivial=False)
+                continue
+            n_memos += len(memos)
+            fam = Family('auto:' + cname, [cname], [Spec(a, 'lazy', set(), [f.qualname for f in i['fillers']], 'auto-discovered')
+                                                     for a, i in memos.items()])
+            for name, fn in public_entries(M, cls):
+                a = AutoDSF(M, cls, fam, memos)
+                st0 = a.init_state(NONE if name == '__init__' else CLEAN)
+                out = a.run_fn(fn, st0)
+                for d in a.derived:
+                    construct = '%s.%s' % (cname, name)
+                    lvl, cause = (None, None) if out is None else (out[d][0], out[d][2])
+                    ok = lvl != DIRTY
+                    nontrivial = d in a.touched or bool(a.touched & a.tdeps[d])
+                    ctx.obligation(rule, construct + ':' + d, ok,
+                                   {'entry': construct, 'memo': d, 'deps': sorted(a.tdeps[d]), 'exit': LEVEL.get(lvl, 'no-normal-exit')}
+                                   if nontrivial else None, nontrivial=nontrivial)
+                    if not ok:
+                        owner = '%s.%s' % (fn.cls.name if fn.cls else '?', name)
+                        ctx.violation(rule, owner, 'cached value %s (filled lazily in %s from %s) may be stale at the normal exit of %s '
+                                      '(receiver class %s): %s:%s `%s` changes a source without resetting it'
+                                      % (d, [f.qualname for f in memos[d]['fillers']], sorted(a.tdeps[d]), owner, cname,
+                                         cause[0] if cause else '?', cause[1] if cause else '?', cause[2] if cause else '?'),
+                                      path=fn.path, line=fn.lineno,
+                                      witness={'receiver': cname, 'memo': d, 'deps': sorted(a.tdeps[d]), 'dirtied_by': cause}, operand=d)
+    ctx.stats['auto_discovered_memos'] = ctx.stats.get('auto_discovered_memos', 0) + n_memos
+    return n_memos
+
+
+# ---------------------------------------------------------------------------------------------
+# must-apply: an argument of an entry point is stored through a property setter on every normal path
+# ---------------------------------------------------------------------------------------------
+class MustStore(DSF):
+    """Reuses the interprocedural interpreter (receiver-sensitive calls, dict dispatch): the pseudo attribute
+    '@applied' starts DIRTY (= not applied yet) and becomes CLEAN when the setter of `prop` runs; join = max, so it is
+    DIRTY at an exit iff some path reaches that exit without the store."""
+
+    def __init__(self, model: Model, concrete: ClassInfo, prop: str):
+        super().__init__(model, concrete, Family('must', [concrete.name], []))
+        self.prop = prop
+        self.derived = {'@applied': set()}
+        self.tdeps = {'@applied': set()}
+
+    def store(self, t, value, st, node, aug=False):
+        out = super().store(t, value, st, node, aug)
+        if out is not None and isinstance(t, ast.Attribute) and is_self_attr(t, self.fn_stack[-1].self_name or 'self') == self.prop:
+            out = dict(out)
+            out['@applied'] = (CLEAN, None, None)
+        return out
+
+
+def must_store_on_all_paths(model: Model, cls: ClassInfo, entry: str, prop: str) -> Tuple[bool, Optional[FuncInfo]]:
+    fn = model.lookup_method(cls, entry)
+    if fn is None:
+        return True, None
+    m = MustStore(model, cls, prop)
+    out = m.run_fn(fn, {'@applied': (DIRTY, None, None)})
+    if out is None:
+        return True, fn
+    return out['@applied'][0] != DIRTY, fn
